@@ -366,6 +366,7 @@ func checkC14(w *World, r *Report) {
 	checkParseTreesNotMemoised(w, r)
 	checkTreesAreParsed(w, r)
 	checkSizesNotNarrowed(w, r)
+	checkParseGetsTheSource(w, r, "R14.13")
 	// (R14.12) tokens once emitted stay in the stream: no element-wise copy of a token list keeps or drops a token by what it is
 	checkListsNotFiltered(w, r, "R14.12", w.named("Token"), "token", "tokens already emitted (comments, text) are removed from the stream — and only when the buffer happens to be full, so what a construct means depends on how much template precedes it")
 }
